@@ -49,6 +49,13 @@ structure Cfg where
   legacy : Bool
   /-- prune procedure variant, see the header -/
   fixed : Bool
+  /-- history-pruner migration variant: a state-diff entry without a history entry (a storage write that
+  does not change the slot) is skipped (`true`, proposed fix) or makes the stager fail (`false`, the code at
+  the pinned commit: `copyValue` returns `ErrKeyNotFound`) -/
+  migSkipsMissing : Bool := false
+  /-- history-pruner migration variant: a cut-off of block 0 is "nothing to prune" (`true`, proposed fix)
+  or runs into `GetBlockHeaderByNumber(oldestBlockKept-1)` with `0-1` (`false`, pinned commit) -/
+  migZeroNoop : Bool := false
 
 /-- `applyTimeFloor`: `if p.minAge == 0 { return standardFloor }; return min(p.latestSampledHeight, standardFloor)` -/
 def applyTimeFloor (c : Cfg) (sampled standardFloor : UInt64) : UInt64 :=
@@ -68,6 +75,21 @@ def l2Guard (c : Cfg) (l1 blockNum : UInt64) : Bool :=
 def l2Keep (c : Cfg) (sampled blockNum : UInt64) (within : Bool) : UInt64 :=
   let standardFloor := blockNum - c.retained
   if c.minAge && within then applyTimeFloor c sampled standardFloor else standardFloor
+
+/-- `historyprunner.Migrator.Migrate`, first run: `pivot := min(l1Head.BlockNumber, chainHeight)`;
+`if pivot < retainedBlocks { return nil, nil }`; `retentionFloorWithMinAge`: `standardFloor := pivot -
+retainedBlocks`, lowered to the min-age floor unless `minAge == 0` or `FindOldestBlockAtOrAfter(0, pivot,
+now-minAge)` found no block (`minAgeFloor = none`). `none` = nothing to prune. -/
+def migKeep (c : Cfg) (height : Nat) (l1 : UInt64) (minAgeFloor : Option UInt64) : Option UInt64 :=
+  let pivot := if l1.toNat ≤ height then l1 else UInt64.ofNat height
+  if pivot < c.retained then none
+  else
+    let standardFloor := pivot - c.retained
+    if c.minAge then
+      match minAgeFloor with
+      | none => some standardFloor
+      | some f => some (umin standardFloor f)
+    else some standardFloor
 
 /-- `RetentionFloor.raiseTo` on the raw `state` word (`state = floor+1`, `0` = unseeded). -/
 def raiseTo (state floor : UInt64) : UInt64 :=
@@ -235,6 +257,11 @@ inductive Op
   | crash (seed : Bool)
   /-- the min-age sample is refreshed (`seedFloor` / `sampleHeight`) to `s` -/
   | sample (s : UInt64)
+  /-- a node start that runs the one-time history-pruner migration (`migration/historyprunner`) to
+  completion — interrupted runs are resumed / repeated until it is through, see `migrateDb` — and then
+  starts the process (seeded floor). `minAgeFloor` = result of its own min-age search; `unchangedSlot` = the
+  state diff of some retained block names a storage slot the block did not change (no history entry). -/
+  | migrate (minAgeFloor : Option UInt64) (unchangedSlot : Bool)
   deriving DecidableEq, Repr
 
 inductive Out
@@ -304,6 +331,28 @@ def startPrune (s : St) (keep : UInt64) : St × Out :=
     else
       ({ s with mem := mem, job := .run start keep.toNat start true }, .started start)
 
+/-- The database a COMPLETED history-pruner migration with cut-off `keep` leaves (`keep ≥ 1`):
+`setupBeforeStager`: `PruneBlockDataUpto(keep)` + the three hash-keyed lookup buckets wiped entirely;
+stager: every history entry of the blocks `[keep, h]` copied to a scratch key (see `ModelMig.lean`);
+`setupBeforeRestorer`: the three legacy history buckets wiped entirely, hash→number of `keep-1` rewritten
+from its header; restorer, per block of `[keep, h]`: history entries copied back, hash→number, tx-hash and
+L1-message lookups rebuilt from the state update / the block's transactions; scratch wiped. -/
+def migrateDb (d : Db) (keep h : Nat) : Db :=
+  let kept (m : Nat) : Bool := decide (keep ≤ m) && decide (m ≤ h)
+  ({ d with has := fun i m =>
+      match i with
+      | .comm | .su | .txs => d.has i m && !decide (m < keep)
+      | .hdr => d.has .hdr m && !decide (m < headerEnd keep)
+      | .h2n => kept m || decide (m + 1 = keep)
+      | .txl | .l1m => kept m
+      | .hist => d.has .hist m && kept m } : Db).pruneAgg keep
+
+/-- What the migration reads: the state update and the transactions of every block it keeps, the history
+entries those state updates name, and the header of `keep-1`. -/
+def migrateReadsOk (d : Db) (keep h : Nat) : Bool :=
+  (List.range (h + 1 - keep)).all (fun j => d.has .su (keep + j) && d.has .txs (keep + j) && d.has .hist (keep + j))
+    && d.has .hdr (keep - 1)
+
 /-- Restart: every in-memory field is rebuilt; the floor is (optionally) seeded from the database. -/
 def restartMem (d : Db) (seed : Bool) : Mem :=
   { floorState := if seed then seedState 0 (UInt64.ofNat ((oldest d).getD 0)) else 0 }
@@ -368,6 +417,28 @@ def step (c : Cfg) (s : St) : Op → St × Out
     | .run .. => ({ s with job := .idle }, .err)
   | .crash seed => ({ db := s.db, mem := restartMem s.db seed, job := .idle }, .ok)
   | .sample v => ({ s with mem := { s.mem with sampled := v } }, .ok)
+  | .migrate mf unchangedSlot =>
+    match s.job, s.db.height, s.db.l1 with
+    | .run .., _, _ => (s, .bad)
+    | .idle, none, _ => ({ s with mem := restartMem s.db true }, .noop)   -- "no chain data yet"
+    | .idle, some _, none => (s, .err)                                    -- `getting L1 head` fails, the node does not start
+    | .idle, some h, some l1 =>
+      match migKeep c h l1 mf with
+      | none => ({ s with mem := restartMem s.db true }, .noop)
+      | some keep =>
+        -- what `setupBeforeStager` has written by the time a later phase fails
+        let afterSetup := (s.db.del (fun i m => rangeDel keep.toNat i m || i == .h2n || i == .txl || i == .l1m)).pruneAgg keep.toNat
+        if keep = 0 then
+          if c.migZeroNoop then ({ s with mem := restartMem s.db true }, .noop)
+          -- `setupBeforeRestorer` reads the header of `oldestBlockKept - 1` = block 2^64-1: the migration
+          -- fails after the lookup buckets were wiped, on every start
+          else ({ s with db := afterSetup, mem := restartMem afterSetup true }, .err)
+        else if unchangedSlot && !c.migSkipsMissing then
+          ({ s with db := afterSetup, mem := restartMem afterSetup true }, .err)  -- stager: key not found
+        else if migrateReadsOk s.db keep.toNat h then
+          let db := migrateDb s.db keep.toNat h
+          ({ db := db, mem := restartMem db true, job := .idle }, .ok)
+        else (s, .err)
 
 def run (c : Cfg) (s : St) : List Op → St
   | [] => s
@@ -531,6 +602,12 @@ def Legal (c : Cfg) (s : St) : Op → Prop
   | .evL2 n _ => s.mem.floorState ≠ 0 ∧ ∃ h, s.db.height = some h ∧ n.toNat ≤ h
   | .crash _ => interruptible c s.job
   | .fail => interruptible c s.job
+  -- the one-time migration runs on a database no prune has touched above its cut-off; for the code at the
+  -- pinned commit additionally: its cut-off is not block 0 and no retained block names an unchanged slot
+  -- (see `migration_cutoff_zero_fails`, `migration_unchanged_slot_fails`)
+  | .migrate mf unchangedSlot => s.job = .idle ∧ (unchangedSlot = true → c.migSkipsMissing = true) ∧
+      ∀ h l1 keep, s.db.height = some h → s.db.l1 = some l1 → migKeep c h l1 mf = some keep →
+        (0 < keep.toNat ∨ c.migZeroNoop = true) ∧ max (lo s.db) s.mem.keepMax ≤ keep.toNat
   | _ => True
 
 /-- The highest retention floor the property allows an event to ask for: the lower of the L1 head and
@@ -546,6 +623,10 @@ def allowed (c : Cfg) (s : St) : Op → Nat
     match s.db.l1 with
     | some l1 => min l1.toNat n.toNat - c.retained.toNat
     | none => 0
+  | .migrate _ _ =>
+    match s.db.height, s.db.l1 with
+    | some h, some l1 => min l1.toNat h - c.retained.toNat
+    | _, _ => 0
   | _ => 0
 
 /-- States reachable from the empty node by legal histories. -/
